@@ -104,14 +104,14 @@ def bcast(vals, shape, to):
 
 # -- operands -------------------------------------------------------------------------------------------
 
-NUM_KINDS = ["pyint", "pyfloat", "npfloat", "npint", "arr0", "arr", "qdimless"]
+NUM_KINDS = ["pyint", "pyfloat", "npfloat", "npint", "arr0", "arr", "qdimless", "npfloat32", "npint32", "list"]
 
 
 @st.composite
 def number_operand(draw, shape_of, max_abs_log2=6, nonzero=False, kinds=NUM_KINDS, allow_imag=True):
     """dimensionless factor/divisor"""
     kind = draw(st.sampled_from(kinds))
-    if kind in ("pyint", "npint"):
+    if kind in ("pyint", "npint", "npint32"):
         v = draw(st.integers(-(2**max_abs_log2), 2**max_abs_log2))
         if nonzero and v == 0:
             v = 3
@@ -120,7 +120,9 @@ def number_operand(draw, shape_of, max_abs_log2=6, nonzero=False, kinds=NUM_KIND
         gen = st.one_of(st.integers(-(2**max_abs_log2), 2**max_abs_log2).map(float),
                         st.floats(-(2.0**max_abs_log2), 2.0**max_abs_log2, allow_nan=False),
                         st.sampled_from([0.5, 0.25, 1 / 3, 1e-3, 3.0, -1.0, 2.0, 7.0, 0.1, 2.0**-10]))
-        if kind == "arr":
+        if kind == "npfloat32":
+            gen = gen.map(lambda v: float(np.float32(v)))
+        if kind in ("arr", "list"):
             shape = list(draw(st.sampled_from([(3,), (1,), (2, 2), (1, 3), (2, 1)])))
             # must broadcast with the phase shape
             if shape_of:
@@ -135,6 +137,8 @@ def number_operand(draw, shape_of, max_abs_log2=6, nonzero=False, kinds=NUM_KIND
         vals = [draw(gen) for _ in range(n)]
         if nonzero:
             vals = [v if abs(v) >= 2.0**-12 else 3.0 for v in vals]
+    if nonzero and kind == "npfloat32":
+        vals = [v if abs(v) >= 2.0**-12 else 3.0 for v in vals]
     imag = bool(allow_imag and draw(st.integers(0, 6)) == 0 and kind in ("pyfloat", "arr", "arr0"))
     return {"kind": kind, "vals": vals, "shape": shape, "imag": imag}
 
@@ -145,6 +149,12 @@ def mk_number(op):
         return int(vals[0])
     if k == "npint":
         return np.int64(vals[0])
+    if k == "npint32":
+        return np.int32(vals[0])
+    if k == "npfloat32":
+        return np.float32(vals[0])
+    if k == "list":
+        return np.array(vals, dtype=np.float64).reshape(op["shape"]).tolist()
     if k == "pyfloat":
         return complex(0, vals[0]) if op["imag"] else float(vals[0])
     if k == "npfloat":
@@ -160,7 +170,7 @@ def mk_number(op):
 
 
 def number_exact(op):
-    if op["kind"] in ("pyint", "npint", "pyfloat", "npfloat", "arr0", "qdimless"):
+    if op["kind"] in ("pyint", "npint", "pyfloat", "npfloat", "arr0", "qdimless", "npint32", "npfloat32"):
         return [F(op["vals"][0])], []
     return [F(v) for v in op["vals"]], op["shape"]
 
